@@ -142,6 +142,38 @@ def main(src, out):
     tree = strip_comments(open(src + '/marker/tree.rs').read())
     envrs = strip_comments(open(src + '/marker/environment.rs').read())
     librs = strip_comments(open(src + '/lib.rs').read())
+    alg = strip_comments(open(src + '/marker/algebra.rs').read())
+
+    def enum_with_data(text, header, name):
+        """variant names, in order, of an enum whose variants carry data; the enum must derive Ord (lexicographic in declaration order)"""
+        m = re.search(r'#\[derive\(([^)]*)\)\]\s*' + header, text)
+        if not m or not re.search(r'\bOrd\b', m.group(1)):
+            raise Shape('enum %s does not derive Ord' % name)
+        body = block_after(text, header + r'\s*\{', 'enum ' + name)
+        names, depth, cur = [], 0, ''
+        for ch in body:
+            if ch in '({':
+                depth += 1
+            elif ch in ')}':
+                depth -= 1
+            elif ch == ',' and depth == 0:
+                names.append(cur)
+                cur = ''
+                continue
+            if depth == 0 or ch in '({':
+                cur += ch if depth == 0 else ''
+        if cur.strip():
+            names.append(cur)
+        out = []
+        for n in names:
+            n = re.sub(r'#\[[^\]]*\]', '', n).strip()
+            mm = re.match(r'([A-Z]\w*)', n)
+            if not mm:
+                raise Shape('enum %s: odd variant %r' % (name, n))
+            out.append(mm.group(1))
+        return out
+    variable_order = enum_with_data(alg, r'pub\(crate\) enum Variable', 'Variable')
+    extra_value_order = enum_with_data(tree, r'pub enum MarkerValueExtra', 'MarkerValueExtra')
     ops = enum_variants(tree, 'MarkerOperator')
     vkeys = enum_variants(tree, 'MarkerValueVersion')
     skeys = enum_variants(tree, 'MarkerValueString')
@@ -250,6 +282,9 @@ def main(src, out):
     w.append('Definition kw_table : list (string * kwv) :=\n  [%s].' % ';\n   '.join('("%s", %s)' % (t, v) for t, v in kw))
     fn('get_version', 'vkey', 'V_', vkeys, gv, lambda r: 'F_' + r, 'field')
     fn('get_string', 'skey', 'S_', skeys, gs, lambda r: 'F_' + r, 'field')
+    w.append('(* the variable order of the diagrams: derived Ord of `Variable` (algebra.rs) and of `MarkerValueExtra` (tree.rs), i.e. declaration order *)')
+    w.append('Definition variable_order : list string := [%s].' % '; '.join('"%s"' % e for e in variable_order))
+    w.append('Definition extra_value_order : list string := [%s].' % '; '.join('"%s"' % e for e in extra_value_order))
     w.append('Definition archive_ext : list string := [%s].' % '; '.join('"%s"' % e for e in ext1))
     w.append('Definition archive_tar_ext : list string := [%s].' % '; '.join('"%s"' % e for e in ext2))
     text = '\n'.join(w) + '\n'
